@@ -44,6 +44,13 @@ one leading start-of-stream mark is skipped -/
 def Codec.decode (c : Codec) (b : Bytes) : Option Str :=
   c.dec (if startsWith b c.bom then b.drop c.bom.length else b)
 
+/-- what a text-mode `read()` of a whole file decodes to.  It differs from `decode` in one
+corner of CPython's *incremental* BOM decoder: a file that is a proper prefix of the mark
+(`EF` or `EF BB` for utf-8-sig) is buffered "waiting for more" and reads as the empty text,
+whereas `bytes.decode` raises. -/
+def Codec.decodeStream (c : Codec) (b : Bytes) : Option Str :=
+  if b.length < c.bom.length && startsWith c.bom b then some [] else c.decode b
+
 /-! ### file system -/
 
 abbrev FS := Str → Option Bytes
@@ -299,7 +306,7 @@ def loadFile (c : Codec) (fs : FS) (path : Str) (readMode eol : Str) : PyM Loade
     else .ok (.bytes data)
   else do
     let data ← openIn fs path (rdT ++ readMode.drop 1)
-    match c.decode data with
+    match c.decodeStream data with
     | some s => .ok (.str (univNL s))
     | none => .error .ValueError
 
@@ -316,7 +323,7 @@ def loadLines (c : Codec) (fs : FS) (path : Str) (readMode eol : Str) : PyM (Lis
     | .str _ => .error .TypeError
   else do
     let data ← openIn fs path rdT
-    match c.decode data with
+    match c.decodeStream data with
     | some s => .ok ((textLines (univNL s)).map (fun l => Loaded.str (rstrip crlf l)))
     | none => .error .ValueError
 
